@@ -454,9 +454,12 @@ theorem rewardsRun_ok (h : Int) (s : EState) (pools : List EPool) (haccu : s.acc
         rw [bind_eq_of_ok _ hcur]
         have hcur_le : a / wrapU64 ((wrapU64 ((p.end_ : Int) - p.start) : Int) + 1) ≤ a := Nat.div_le_self _ _
         have h254 : (2 : Nat) ^ 254 + (2 ^ 128 - 1) < 2 ^ 255 := by norm_num
-        have hacc0 : accuAtStart h p s.accu ≤ s.accu := by
-          unfold accuAtStart; split_ifs <;> omega
-        have hbd : accuAtStart h p s.accu + a / wrapU64 ((wrapU64 ((p.end_ : Int) - p.start) : Int) + 1) < 2 ^ 255 := by omega
+        have hacc0 : accuKept h s.rew p s.accu ≤ s.accu := by
+          unfold accuKept
+          cases rewardAt (prevHeight h) s.rew with
+          | none => exact Nat.zero_le _
+          | some q => simp only; split_ifs <;> omega
+        have hbd : accuKept h s.rew p s.accu + a / wrapU64 ((wrapU64 ((p.end_ : Int) - p.start) : Int) + 1) < 2 ^ 255 := by omega
         rw [bind_eq_of_ok _ (Uint_add_ok (lt_trans hbd two255_lt))]
         cases due with
         | false => exact ⟨_, rfl⟩
